@@ -9,6 +9,10 @@ def run():
                   vlib.model_check("LifeMC", "LifeMC.cfg", timeout=600))
     chk.add_model("WakeImpl (state word / queue protocol: SingleRunner, EnteredOnce with stale queue entries)",
                   vlib.model_check("WakeImpl", "WakeImpl.cfg", timeout=600))
+    chk.add_model("YieldImpl (scheduling loop: pending / pending_boost yields, next-thread shortcut, 2 tasks x 3 phases)",
+                  vlib.model_check("YieldImpl", "YieldImpl.cfg", timeout=600))
+    ry = vlib.model_check("YieldImpl", "YieldImpl_dev.cfg", expect_ok=False, timeout=600)
+    chk.add_model("YieldImpl/variant boost_next_keeps_state (must violate)", ry, note="violated: %s" % ry["violated"])
     (binary,) = vlib.build_harness(["life_harness"])
     nruns = 128 if chk.thorough() else 32
     ninc = 12 if chk.thorough() else 8
